@@ -7,8 +7,8 @@ TEXT = {
  "C01": ("R_PortMem (TLA+ total monitor of native-port memory semantics) judged by TLC on every port event of whole-core executions of the real crossbar+controller over a DFI responder; exhaustive TLC runs of the design models of the core mechanisms", "5/C01"),
  "C02": ("R_DramDevice + R_BankLink (TLA+ device automaton and request linkage) judged by TLC on every DFI phase of whole-core executions; D_BankMachine explored exhaustively by TLC with the same device clauses and kept honest by lock-step conformance with the real BankMachine", "5/C02"),
  "C03": ("R_DramDevice timing clauses with requirements computed in TLA+ (BigNat) from the module's datasheet entry, judged by TLC on whole-core DFI traces incl. phase positions; D_BankMachine exhaustive with zero-slack timers", "5/C03"),
- "C04": ("R_Refresh bound (k+N)*tREFI+L in exact arithmetic judged by TLC on whole-core traces under saturating traffic; D_Refresher explored exhaustively by TLC", "5/C04"),
- "C05": ("R_Response bounds judged by TLC on victim/aggressor whole-core executions", "5/C05"),
+ "C04": ("R_Refresh bound (k+N)*tREFI+L in exact arithmetic judged by TLC on whole-core traces under saturating traffic; D_Refresher explored exhaustively by TLC; composition MC_MuxRef (multiplexer with refresh path + refresher + abstract bank machines that D_BankMachine is model-checked to refine): every refresh request is served (liveness)", "5/C04, 12.4"),
+ "C05": ("R_Response bounds judged by TLC on victim/aggressor whole-core executions; liveness of D_Crossbar, MC_Multiplexer and (thorough) the composition MC_MuxRef checked by TLC under fairness", "5/C05, 12.4"),
  "C06": ("TLC proves injective/onto/walk-order/A10 theorems of R_AddrMap!Decode over geometry families; R_BankLink binds Decode to the rank/bank/row/column observed on the DFI bus of the real core for address sets per geometry", "5/C06"),
 }
 
